@@ -91,6 +91,122 @@ def arith(sign, y, x):
     return (sy, tuple(out))
 
 
+def axis(sh, d):
+    return sh[0][d] if d < len(sh[0]) else 1
+
+
+def unravel(i, dims):
+    c = []
+    for d in dims:
+        c.append(i % d)
+        i //= d
+    return c
+
+
+def ravel(c, dims):
+    i, m = 0, 1
+    for x, d in zip(c, dims):
+        i += x * m
+        m *= d
+    return i
+
+
+def padded(sh, n):
+    return list(sh[0]) + [1] * (n - len(sh[0]))
+
+
+def scatter_add(gx, gy, n, place):
+    """gx[bx][place(c)] += gy[by][c] for every sample and every coordinate c of gy
+    (n axes); a non-batched operand is shared by all samples."""
+    (sx, vx), (sy, vy) = gx, gy
+    dx, dy = padded(sx, n), padded(sy, n)
+    volx, voly = volume(sx), volume(sy)
+    out = list(vx)
+    for b in range(max(sx[1], sy[1])):
+        ox = b * volx if sx[1] > 1 else 0
+        oy = b * voly if sy[1] > 1 else 0
+        for i in range(voly):
+            c = unravel(i, dy)
+            out[ox + ravel(place(c), dx)] += vy[oy + i]
+    return (sx, tuple(out))
+
+
+def slice_bw(gy, dim, off, gx):
+    sy, sx = gy[0], gx[0]
+    n = max(len(sy[0]), len(sx[0]), dim + 1 if dim < 16 else 0)
+    if dim < 16:
+        same = all(a == b for i, (a, b) in enumerate(zip(padded(sy, n), padded(sx, n))) if i != dim)
+    else:
+        same = sy[0] == sx[0]
+    if not same or not (sy[1] == sx[1] or 1 in (sy[1], sx[1])) or off > axis(sx, dim) or axis(sy, dim) > axis(sx, dim) - off:
+        return None
+    if dim >= 16:
+        return arith(1, gx, gy)
+
+    def place(c):
+        c = list(c); c[dim] += off
+        return c
+    return scatter_add(gx, gy, n, place)
+
+
+def pick_shape(sx, ids, dim):
+    n = axis(sx, dim)
+    bi = len(ids)
+    if bi == 0 or (sx[1] != bi and sx[1] > 1 and bi > 1) or any(i >= n for i in ids) or dim >= 8:
+        return None
+    d = padded(sx, max(len(sx[0]), dim + 1))
+    d[dim] = 1
+    return (canon_dims(d), max(sx[1], bi))
+
+
+def pick_bw(gy, dim, ids, gx):
+    sy, sx = gy[0], gx[0]
+    if pick_shape(sx, ids, dim) != sy:
+        return None
+    n = max(len(sx[0]), dim + 1)
+    dx, dy = padded(sx, n), padded(sy, n)
+    volx, voly = volume(sx), volume(sy)
+    out = list(gx[1])
+    for b in range(sy[1]):
+        ox = b * volx if sx[1] > 1 else 0
+        k = ids[b] if len(ids) > 1 else ids[0]
+        for i in range(voly):
+            c = unravel(i, dy)
+            c[dim] = k
+            out[ox + ravel(c, dx)] += gy[1][b * voly + i]
+    return (sx, tuple(out))
+
+
+def flip_bw(gy, dim, gx):
+    sy, sx = gy[0], gx[0]
+    if sy != sx:
+        return None
+    if dim >= len(sx[0]):
+        return arith(1, gx, gy)
+    n = len(sx[0])
+    m = sx[0][dim]
+
+    def place(c):
+        c = list(c); c[dim] = m - 1 - c[dim]
+        return c
+    return scatter_add(gx, gy, n, place)
+
+
+def transpose_bw(gy, gx):
+    sy, sx = gy[0], gx[0]
+    if len(sx[0]) > 2 or sy != (canon_dims([axis(sx, 1), axis(sx, 0)]), sx[1]):
+        return None
+    return scatter_add(gx, gy, 2, lambda c: [c[1], c[0]])
+
+
+def probe_ok(fn, sh):
+    if fn == "matmul":
+        return len(sh[0]) <= 2 and axis(sh, 0) == axis(sh, 1)
+    if fn == "tofloat":
+        return size(sh) == 1
+    return True
+
+
 class Oracle:
     """Pure value semantics. T: object id -> None (invalid tensor) | (shape, values);
     P: parameter id -> [value, gradient]."""
@@ -249,6 +365,70 @@ class Oracle:
         if op == "pdrop":
             P.pop(int(w[1]), None)
             return "ok"
+        if op in ("diadd", "disub"):
+            return self.step(("iadd" if op == "diadd" else "isub") + line[5:])
+        if op == "dimul":
+            return self.step("imul" + line[5:])
+        if op in ("dslice_bw", "dpick_bw", "dflip_bw", "dtranspose_bw"):
+            gy, gx = int(w[1]), int(w[-1])
+            if gy not in T or gx not in T:
+                return "noobj"
+            if gy == gx:
+                return "alias"
+            if T[gy] is None or T[gx] is None:
+                return "err"
+            if op == "dslice_bw":
+                r = slice_bw(T[gy], int(w[2]), int(w[3]), T[gx])
+            elif op == "dpick_bw":
+                r = pick_bw(T[gy], int(w[2]), [int(x) for x in w[3][2:].split(",")] if w[3][2:] else [], T[gx])
+            elif op == "dflip_bw":
+                r = flip_bw(T[gy], int(w[2]), T[gx])
+            else:
+                r = transpose_bw(T[gy], T[gx])
+            if r is None:
+                return "err"
+            T[gx] = r
+            return "ok"
+        if op in ("dadd_bw", "dsub_bw"):
+            gy, ga, gb = int(w[1]), int(w[2]), int(w[3])
+            if gy not in T or ga not in T or gb not in T:
+                return "noobj"
+            if gy == ga or gy == gb or ga == gb:
+                return "alias"
+            if T[gy] is None or T[ga] is None or T[gb] is None:
+                return "err"
+            sy, sa, sb = T[gy][0], T[ga][0], T[gb][0]
+            if sa[0] != sb[0] or not (sa[1] == sb[1] or 1 in (sa[1], sb[1])) or sy != (sa[0], max(sa[1], sb[1])):
+                return "err"
+            T[ga] = arith(1, T[ga], T[gy])
+            T[gb] = arith(1 if op == "dadd_bw" else -1, T[gb], T[gy])
+            return "ok"
+        if op == "piadd_grad":
+            p, g = int(w[1]), int(w[2])
+            if g not in T:
+                return "noobj"
+            if p not in P or T[g] is None:
+                return "err"
+            r = arith(1, P[p][1], T[g])
+            if r is None:
+                return "err"
+            P[p][1] = r
+            return "ok"
+        if op in ("fcopy", "fpositive", "fconcat1", "fbconcat1"):
+            h, g = int(w[1]), int(w[2])
+            if h not in T:
+                return "noobj"
+            if T[h] is None or (op == "fconcat1" and int(w[3]) >= 8):
+                return "err"
+            T[g] = T[h]
+            return "ok"
+        if op == "probe":
+            h = int(w[2])
+            if h not in T:
+                return "noobj"
+            if T[h] is None or not probe_ok(w[1], T[h][0]):
+                return "err"
+            return "ok"
         return "bad-op"
 
 
@@ -305,7 +485,10 @@ def same_volume_dims(rng, vol):
 
 
 MUTATING = {"new", "copy", "copyctor", "move", "reshape", "flatten", "reset", "resetv", "iadd", "isub", "imul",
-            "invalidate", "drop", "param", "pvalue", "pgrad", "ptensor", "piadd_value", "pdrop"}
+            "invalidate", "drop", "param", "pvalue", "pgrad", "ptensor", "piadd_value", "pdrop",
+            "diadd", "disub", "dimul", "dslice_bw", "dpick_bw", "dflip_bw", "dtranspose_bw", "dadd_bw", "dsub_bw",
+            "piadd_grad", "fcopy", "fpositive", "fconcat1", "fbconcat1"}
+PROBES = ["sum0", "add", "matmul", "bsum", "tofloat", "argmax0"]
 
 
 def gen_line(rng, o, bad):
@@ -415,24 +598,200 @@ def gen_line(rng, o, bad):
     return "live"
 
 
+def gen_extra(rng, o, bad):
+    """Lines (one or a short scripted pattern) of the second group of operations:
+    Device entry points called directly (in-place and backward kernels), functions of one
+    operand, and move-assignment between objects that share one buffer."""
+    T, P = o.T, o.P
+    valid = [h for h in T if T[h] is not None]
+    invalid = [h for h in T if T[h] is None]
+    wild = rng.random() < bad
+    free = [h for h in range(NH) if h not in T] or list(range(NH))
+
+    def anyh():
+        return rng.randrange(NH)
+
+    def src():
+        if wild and invalid and rng.random() < 0.6:
+            return rng.choice(invalid)
+        if wild or not valid:
+            return anyh()
+        return rng.choice(valid)
+
+    def other(*used):
+        c = [h for h in range(NH) if h not in used]
+        f = [h for h in c if h not in T]
+        return rng.choice(f) if f and rng.random() < 0.6 else rng.choice(c)
+
+    def fresh(sh, near=None):
+        """`new` of a tensor of shape sh in a slot that is not `near`."""
+        h = other(*(near or ()))
+        return h, "new %d %s %s" % (h, stok(list(sh[0]), sh[1]), vtok(rand_vals(rng, size(sh))))
+
+    kinds = ["mv"] * 10 + ["diadd"] * 4 + ["disub"] * 3 + ["dimul"] * 3 + ["dslice_bw"] * 5 + ["dpick_bw"] * 4 + \
+            ["dflip_bw"] * 4 + ["dtranspose_bw"] * 3 + ["dadd_bw"] * 4 + ["dsub_bw"] * 4 + ["piadd_grad"] * 3 + \
+            ["fcopy"] * 2 + ["fpositive"] * 2 + ["fconcat1"] * 2 + ["fbconcat1"] * 2 + ["probe"] * 4 + ["finv"] * 3
+    k = rng.choice(kinds)
+    if not valid and not wild:
+        return [gen_line(rng, o, 0.0)]
+    if k == "mv":
+        a = src()
+        pat = rng.randrange(6)
+        if pat == 0:      # c = copy(a); a = move(c)
+            c = other(a)
+            return ["copy %d %d" % (a, c), "move %d %d" % (c, a)]
+        if pat == 1:      # v = flatten(a); a = move(v)
+            v = other(a)
+            return ["flatten %d %d" % (a, v), "move %d %d" % (v, a)]
+        if pat == 2:      # moved -> reshape view -> copy -> move back
+            m = other(a); v = other(a, m); c = other(a, m, v)
+            d = same_volume_dims(rng, volume(T[a][0])) if a in T and T[a] is not None else [2]
+            return ["move %d %d" % (a, m), "reshape %d %d %s" % (m, v, stok(d, 1)), "copy %d %d" % (v, c), "move %d %d" % (c, a)]
+        if pat == 3:      # move onto a sharer
+            c = other(a)
+            return ["copy %d %d" % (a, c), "move %d %d" % (a, c)]
+        if pat == 4:      # view moved over the object it views, then written
+            v = other(a)
+            d = same_volume_dims(rng, volume(T[a][0])) if a in T and T[a] is not None else [2]
+            return ["reshape %d %d %s" % (a, v, stok(d, 1)), "copy %d %d" % (a, other(a, v)), "move %d %d" % (v, a), "imul %d 2" % a]
+        c = other(a)      # copy, move back, write through the moved-to object
+        return ["fpositive %d %d" % (a, c), "move %d %d" % (c, a), "dimul %d -1" % a]
+    if k in ("diadd", "disub"):
+        l = gen_line(rng, o, bad)
+        for _ in range(6):
+            if l.startswith(("iadd", "isub")):
+                break
+            l = gen_line(rng, o, bad)
+        else:
+            return [l]
+        return [("diadd" if k == "diadd" else "disub") + l[4:]]
+    if k == "dimul":
+        return ["dimul %d %d" % (src(), rng.choice([-2, -1, 0, 2, 3]))]
+    if k == "piadd_grad":
+        if not P:
+            return ["param %d %s %s" % (rng.randrange(NP), stok([2], 1), vtok(rand_vals(rng, 2)))]
+        p = rng.choice(list(P))
+        c = [g for g in valid if T[g][0][0] == P[p][1][0][0]]
+        if not c and not wild:
+            return ["pgrad %d %d" % (p, other())]
+        return ["piadd_grad %d %d" % (p, rng.choice(c) if c and not wild else src())]
+    if k in ("fcopy", "fpositive", "fbconcat1"):
+        return ["%s %d %d" % (k, src(), anyh())]
+    if k == "fconcat1":
+        return ["fconcat1 %d %d %d" % (src(), anyh(), rng.choice([0, 0, 1, 2, 3, 7, 8]))]
+    if k == "probe":
+        return ["probe %s %d" % (rng.choice(PROBES), src())]
+    if k == "finv":
+        # every function-level use of one invalid object
+        h = rng.choice(invalid) if invalid else src()
+        g = other(h)
+        ls = ["fcopy %d %d" % (h, g), "fpositive %d %d" % (h, g), "fconcat1 %d %d 0" % (h, g), "fbconcat1 %d %d" % (h, g),
+              "reshape %d %d S:2/1" % (h, g), "flatten %d %d" % (h, g), "read %d" % h, "shape %d" % h, "device %d" % h,
+              "iadd %d %d" % (h, h), "diadd %d %d" % (h, h), "dimul %d 2" % h] + ["probe %s %d" % (f, h) for f in PROBES]
+        rng.shuffle(ls)
+        return ls[:rng.choice([3, 6, 18])]
+    # backward kernels: gx is a valid object, preferably one that shares its buffer
+    gx = src()
+    if gx not in T or T[gx] is None:
+        return ["%s %d %s%d" % (k, src(), "0 " if k in ("dflip_bw",) else ("0 0 " if k == "dslice_bw" else ("0 I:0 " if k == "dpick_bw" else ("%d " % anyh() if k in ("dadd_bw", "dsub_bw") else ""))), gx)]
+    sx = T[gx][0]
+    share = ["copy %d %d" % (gx, other(gx))] if rng.random() < 0.5 else []
+    if k == "dflip_bw":
+        want = sx
+        dim = rng.choice([0, 0, 1, 2, len(sx[0])])
+    elif k == "dtranspose_bw":
+        want = (canon_dims([axis(sx, 1), axis(sx, 0)]), sx[1])
+        dim = 0
+        if len(sx[0]) > 2 and not wild:
+            h, l = fresh((rng.choice([(2, 3), (3, 2), (2,), (2, 2)]), rng.choice([1, 2])))
+            return [l]
+    elif k == "dslice_bw":
+        dim = rng.choice([0, 0, 1, 1, 2, len(sx[0])])
+        n = axis(sx, dim)
+        w = rng.randint(1, n)
+        off = rng.randint(0, n - w)
+        d = padded(sx, max(len(sx[0]), dim + 1)); d[dim] = w
+        want = (canon_dims(d), rng.choice([sx[1], sx[1], 1, 2 if sx[1] == 1 else sx[1]]))
+        if wild:
+            off += rng.choice([0, 1, n])
+    elif k == "dpick_bw":
+        dim = rng.choice([0, 0, 1, 2])
+        n = axis(sx, dim)
+        bi = rng.choice([1, sx[1]] if sx[1] > 1 else [1, 1, 2])
+        ids = [rng.randrange(n) for _ in range(bi)]
+        if wild and rng.random() < 0.5:
+            ids[0] = n
+        want = pick_shape(sx, [0] * bi, dim)
+    else:   # dadd_bw / dsub_bw: gx plays ga; gb is a sharer or another tensor of the same dims
+        bb = rng.choice([sx[1], sx[1], 1])
+        want = (sx[0], max(sx[1], bb))
+        pre = []
+        if rng.random() < 0.6 or wild:
+            gb = other(gx)
+            pre.append("copy %d %d" % (gx, gb))       # ga and gb start as one buffer
+            want = sx
+        else:
+            c = [h for h in valid if h != gx and T[h][0] == (sx[0], bb)]
+            if c:
+                gb = rng.choice(c)
+            else:
+                gb, l = fresh((sx[0], bb), near=(gx,))
+                pre.append(l)
+        c = [h for h in valid if h not in (gx, gb) and T[h][0] == want]
+        if c and rng.random() < 0.8:
+            gy = rng.choice(c)
+        else:
+            gy, l = fresh(want, near=(gx, gb))
+            pre.append(l)
+        if wild and rng.random() < 0.3:
+            gy = rng.choice([gx, gb])
+        return pre + ["%s %d %d %d" % (k, gy, gx, gb)]
+    c = [h for h in valid if h != gx and T[h][0] == want]
+    pre = []
+    if c and rng.random() < 0.8:
+        gy = rng.choice(c)
+    elif want == sx and rng.random() < 0.5:
+        gy = other(gx)
+        pre.append("copy %d %d" % (gx, gy))           # gy and gx are one buffer
+        share = []
+    else:
+        gy, l = fresh(want, near=(gx,))
+        pre.append(l)
+    if wild and rng.random() < 0.2:
+        gy = gx
+    if k == "dflip_bw":
+        line = "dflip_bw %d %d %d" % (gy, dim, gx)
+    elif k == "dtranspose_bw":
+        line = "dtranspose_bw %d %d" % (gy, gx)
+    elif k == "dslice_bw":
+        line = "dslice_bw %d %d %d %d" % (gy, dim, off, gx)
+    else:
+        line = "dpick_bw %d %d I:%s %d" % (gy, dim, ",".join(map(str, ids)), gx)
+    return pre + share + [line]
+
+
 def gen_history(rng, steps, bad):
     """Lines of one history: every mutating step is followed by `readall`."""
     o = Oracle()
     lines = []
-    for _ in range(steps):
+    n = 0
+    while n < steps:
         for _try in range(8):
-            l = gen_line(rng, o, bad)
+            ls = gen_extra(rng, o, bad) if rng.random() < 0.4 else [gen_line(rng, o, bad)]
             t = o.clone()
-            t.step(l)
+            for l in ls:
+                t.step(l)
             if t.biggest() <= LIMIT:
                 break
         else:
-            l = "live"
+            ls = ["live"]
             t = o
         o = t
-        lines.append(l)
-        if l.split()[0] in MUTATING:
-            lines.append("readall")
+        for l in ls:
+            n += 1
+            lines.append(l)
+            if l.split()[0] in MUTATING:
+                lines.append("readall")
     lines.append("live")
     return lines
 
@@ -443,6 +802,7 @@ def small_alphabet():
     a += ["move %d %d" % (h, g) for h in range(3) for g in range(3) if h != g] + ["move 0 0"]
     a += ["reshape %d %d S:1,2/1" % (h, g) for h in range(3) for g in range(3)]
     a += ["iadd %d %d" % (h, g) for h in range(3) for g in range(3)]
+    a += ["diadd %d %d" % (h, g) for h in range(3) for g in range(3) if h != g]
     a += ["imul %d 2" % h for h in range(3)]
     a += ["invalidate %d" % h for h in range(3)] + ["drop %d" % h for h in range(3)]
     return a
